@@ -171,6 +171,9 @@ class HDFOutput(Output):
             particles_grp = f.create_group('particles')
             for ptype, pdata in self.particle_data.items():
                 ptype_grp = particles_grp.create_group(ptype)
+                ptype_grp.attrs['output_property_arrays'] = [
+                    str(x) for x in pdata.get('output_property_arrays', [])
+                ]
                 arrays_grp = ptype_grp.create_group('arrays')
                 data = self.all_array_data[ptype]
                 self._set_constants(pdata, ptype_grp)
@@ -217,6 +220,11 @@ class HDFOutput(Output):
                 else:
                     array.add_property(prop_name, type=type_, default=default,
                                        stride=stride)
+            if 'output_property_arrays' in prop_array.attrs:
+                output_array = [
+                    _to_str(x)
+                    for x in prop_array.attrs['output_property_arrays']
+                ]
             array.set_output_arrays(output_array)
             particles[str(name)] = array
         return particles
